@@ -30,6 +30,7 @@ import (
 type Op struct {
 	Q    string `json:"q"`
 	Kind string `json:"kind"`
+	Via  string `json:"via"` // pid (default) | name
 }
 
 type Scenario struct {
@@ -39,7 +40,8 @@ type Scenario struct {
 	Runners int             `json:"runners"`
 	Limit   int64           `json:"limit"`
 	Trap    bool            `json:"trap"`
-	Raw     bool            `json:"raw"` // raw gen.ProcessBehavior instead of act.Actor
+	Raw     bool            `json:"raw"`   // raw gen.ProcessBehavior instead of act.Actor
+	Spawn   bool            `json:"spawn"` // the process is spawned (with a registered name) by thread P during the plan
 }
 
 type Plan struct {
@@ -57,6 +59,7 @@ var FromPoint = map[string]string{
 	"SLookup": "send.lookup", "SAlive": "send.alive", "SPush": "mpsc.push", "SLink": "mpsc.link", "SWake": "run.wake",
 	"RBegin": "run.begin", "RPick": "actor.pick", "RCb": "cb", "RCbCall": "cb", "RWaitEnter": "wait.enter", "RWaitLeave": "wait.leave", "RSleep": "run.sleep", "RRecheck": "run.recheck",
 	"RReacquire": "run.reacquire", "RTerm": "run.term|run.zombie", "RUnreg": "unreg.delete", "RTermCb": "term",
+	"PStart": "start", "PInitDone": "init", "PRegister": "spawn.register", "PWake": "run.wake",
 	"KStart": "start", "KSkip": "start", "KLookup": "kill.lookup", "KZombie": "kill.zombie", "KRestore": "kill.restore",
 	"KTerm": "kill.term", "KUnreg": "unreg.delete", "TBegin": "kill.tbegin", "TTermCb": "term",
 }
@@ -64,7 +67,7 @@ var FromPoint = map[string]string{
 var ActivePoints = []string{
 	"send.lookup", "send.alive", "mpsc.push", "mpsc.link", "run.wake",
 	"run.begin", "actor.pick", "cb", "wait.enter", "wait.leave", "run.sleep", "run.recheck", "run.reacquire", "run.term", "run.zombie", "run.panic",
-	"unreg.delete", "term",
+	"unreg.delete", "term", "init", "spawn.register",
 	"kill.lookup", "kill.zombie", "kill.restore", "kill.term", "kill.tbegin",
 }
 
@@ -78,15 +81,17 @@ type Msg struct {
 // ---- the process under test ----
 
 type world struct {
-	ctl    *vsched.Ctl
-	mu     sync.Mutex
-	proc   gen.Process // the watched process
-	pid    gen.PID
-	mbox   gen.ProcessMailbox
-	incb   int32 // callbacks currently executing (scheduler independent overlap witness)
-	maxcb  int32
-	trap   bool
-	helper gen.PID // answers the synchronous requests of "call" handlers
+	ctl      *vsched.Ctl
+	mu       sync.Mutex
+	proc     gen.Process // the watched process
+	pid      gen.PID
+	mbox     gen.ProcessMailbox
+	incb     int32 // callbacks currently executing (scheduler independent overlap witness)
+	maxcb    int32
+	trap     bool
+	helper   gen.PID // answers the synchronous requests of "call" handlers
+	initGate bool    // Init is a yield point (spawn scenarios)
+	name     gen.Atom
 	// free-running mode: callbacks append to this log instead of yielding to the controller
 	free bool
 	fmu  sync.Mutex
@@ -131,6 +136,9 @@ func (w *world) reportOp(th, op, res string) {
 func (w *world) watched(subject any) bool {
 	w.mu.Lock()
 	defer w.mu.Unlock()
+	if pid, ok := subject.(gen.ProcessID); ok {
+		return w.name != "" && pid.Name == w.name
+	}
 	if w.proc == nil {
 		return false
 	}
@@ -139,6 +147,8 @@ func (w *world) watched(subject any) bool {
 		return s == w.proc
 	case gen.PID:
 		return s == w.pid
+	case gen.ProcessID:
+		return w.name != "" && s.Name == w.name
 	case lib.QueueMPSC:
 		return s == w.mbox.Main || s == w.mbox.System || s == w.mbox.Urgent || s == w.mbox.Log
 	}
@@ -170,6 +180,12 @@ func (g *gactor) Init(args ...any) error {
 	w.mbox = g.Mailbox()
 	w.mu.Unlock()
 	g.SetTrapExit(w.trap)
+	if w.initGate {
+		w.enter()
+		defer w.leave()
+		w.ctl.SetInfo("cb", "init")
+		w.ctl.Yield("init", g.Process)
+	}
 	return nil
 }
 
@@ -276,6 +292,7 @@ type Runner struct {
 	// statistics
 	Plans, Steps, Drift, Stalls, Skipped int
 	MaxOverlap                           int
+	seq                                  int
 	Debug                                bool
 	helper                               gen.PID
 }
@@ -330,6 +347,16 @@ func visible(q lib.QueueMPSC) []string {
 }
 
 func (r *Runner) project(w *world, e *Event) {
+	w.mu.Lock()
+	known := w.proc != nil
+	w.mu.Unlock()
+	if !known {
+		// the process does not exist yet (spawn scenarios)
+		e.St, e.Tab = "init", "F"
+		e.QLen = []int64{0, 0, 0, 0}
+		e.Vis = [][]string{{}, {}, {}, {}}
+		return
+	}
 	e.St = stateName(w.proc.State())
 	if _, err := r.Node.ProcessState(w.pid); err == nil {
 		e.Tab = "T"
@@ -409,22 +436,43 @@ func (r *Runner) RunPlan(scn *Scenario, plan *Plan) error {
 
 	w.helper = r.helperPid()
 	opts := gen.ProcessOptions{MailboxSize: scn.Limit}
-	pid, err := r.Node.Spawn(factory, opts, w)
-	if err != nil {
-		return fmt.Errorf("spawn: %w", err)
-	}
-	// the runner started by spawn() finds an empty mailbox: let it finish
-	r.Ctl.Settle()
-	for guard := 0; guard < 50 && !r.Ctl.AllDone(); guard++ {
-		for _, l := range r.Ctl.Parked() {
-			r.Ctl.Grant(l)
+	var pid gen.PID
+	r.seq++
+	if scn.Spawn {
+		// the process is spawned by the controlled thread P during the plan
+		w.initGate = true
+		w.name = gen.Atom(fmt.Sprintf("pcj_%d_%d", os.Getpid()%10000, r.seq))
+	} else {
+		var err error
+		pid, err = r.Node.Spawn(factory, opts, w)
+		if err != nil {
+			return fmt.Errorf("spawn: %w", err)
 		}
-	}
-	if !r.Ctl.AllDone() {
-		return fmt.Errorf("initial runner did not finish")
+		// the runner started by spawn() finds an empty mailbox: let it finish
+		r.Ctl.Settle()
+		for guard := 0; guard < 50 && !r.Ctl.AllDone(); guard++ {
+			for _, l := range r.Ctl.Parked() {
+				r.Ctl.Grant(l)
+			}
+		}
+		if !r.Ctl.AllDone() {
+			return fmt.Errorf("initial runner did not finish")
+		}
 	}
 
 	// driver threads
+	if scn.Spawn {
+		known["P"] = true
+		r.Ctl.Go("P", "P", func() {
+			p, err := r.Node.SpawnRegister(w.name, factory, opts, w)
+			if err == nil {
+				w.mu.Lock()
+				w.pid = p
+				w.mu.Unlock()
+			}
+			r.Ctl.SetInfo("res", resName(err))
+		})
+	}
 	for s, ops := range scn.Senders {
 		s, ops := s, ops
 		known[s] = true
@@ -439,7 +487,11 @@ func (r *Runner) RunPlan(scn *Scenario, plan *Plan) error {
 				case "exitp":
 					err = r.Node.SendExit(pid, errors.New("X:"+id))
 				default:
-					err = r.Core.RouteSendPID(from, pid, gen.MessageOptions{Priority: prioOf(op.Q)}, Msg{ID: id, Kind: op.Kind})
+					if op.Via == "name" {
+						err = r.Core.RouteSendProcessID(from, gen.ProcessID{Name: w.name, Node: r.Node.Name()}, gen.MessageOptions{Priority: prioOf(op.Q)}, Msg{ID: id, Kind: op.Kind})
+					} else {
+						err = r.Core.RouteSendPID(from, pid, gen.MessageOptions{Priority: prioOf(op.Q)}, Msg{ID: id, Kind: op.Kind})
+					}
 				}
 				r.Ctl.SetInfo("op", id)
 				r.Ctl.SetInfo("res", resName(err))
@@ -607,6 +659,9 @@ func (r *Runner) RunPlan(scn *Scenario, plan *Plan) error {
 	// cleanup outside control
 	r.Ctl.Disable()
 	r.Ctl.Release(time.Second)
+	w.mu.Lock()
+	pid = w.pid
+	w.mu.Unlock()
 	if _, err := r.Node.ProcessState(pid); err == nil {
 		r.Node.Kill(pid)
 	}
